@@ -161,7 +161,21 @@ def run(ctx):
 
     # spec -> impl
     mism_path = ctx.path("mismatches.ndjson")
-    rep = vlib.run_harness(binp, ["replay", prog_path, cases_path, mism_path], timeout=1800)
+    try:
+        rep = vlib.run_harness(binp, ["replay", prog_path, cases_path, mism_path], timeout=1800, hang_path=mism_path + ".hang")
+    except vlib.Hang as h:
+        # Gsub.tla: every lookup application terminates (decreasing measure asserted in Next). A generated case allsorts
+        # does not return from is a violation by itself; nothing after it can be run, so it is reported at once.
+        c = json.loads(str(h))
+        t = programs.get(c["p"], {})
+        v = Violation("gsub|no-termination|%s" % t.get("name", "?"),
+                      "generated %s: in=%s lookups %s: allsorts did not return within 120 s (the specification's run ends after "
+                      "finitely many steps)" % (t.get("name", "?"), c["in"], c["order"]),
+                      {"source": "generated", "stage": "hang", "p": c["p"], "name": t.get("name"), "n": t.get("n"),
+                       "prog": t.get("prog"), "in": c["in"], "order": c["order"]})
+        vlib.finish(ctx, LEVEL, {"states": mc.distinct, "transitions": mc.generated, "traces_validated_against_impl": 0,
+                                 "samples": [json.loads(samples[0])] if samples else [c],
+                                 "explanation": "replay stopped by the watchdog at a non-terminating case"}, [v], ASSUMPTIONS)
     ctx.note("replay: %s" % json.dumps({k: v for k, v in rep.items() if k != "tags"}))
     violations = []
     planted_stages = set()
@@ -343,14 +357,23 @@ def replay(ctx, path):
     if d["source"] == "generated":
         pp, cp, mp = ctx.path("p.ndjson"), ctx.path("c.ndjson"), ctx.path("m.ndjson")
         vlib.write_ndjson(pp, [{"p": d["p"], "name": d["name"], "n": d["n"], "prog": d["prog"]}])
-        if d["stage"] == "lookup":
+        if d["stage"] == "hang":
+            steps = []
+        elif d["stage"] == "lookup":
             steps = d["want"]
         else:
             # expectation of a whole-run route: the final run (the replay compares the last step only)
             steps = [d["want"]] if d["order"] else []
-        vlib.write_ndjson(cp, [{"p": d["p"], "in": d["in"], "order": d["order"] if d["stage"] == "lookup" else d["order"][:1],
+        vlib.write_ndjson(cp, [{"p": d["p"], "in": d["in"], "order": d["order"] if d["stage"] in ("lookup", "hang") else d["order"][:1],
                                 "steps": steps, "alts": [], "bugs": [], "tags": []}])
-        rep = vlib.run_harness(binp, ["replay", pp, cp, mp])
+        try:
+            rep = vlib.run_harness(binp, ["replay", pp, cp, mp], hang_path=mp + ".hang")
+        except vlib.Hang as h:
+            print("REPRODUCED hang: allsorts did not return within 120 s on %s" % str(h)[:300])
+            return 1
+        if d["stage"] == "hang":
+            print("not reproduced: the case now terminates")
+            return 0
         hit = 0
         for m in vlib.read_ndjson(mp):
             if m["stage"] == d["stage"]:
